@@ -21,6 +21,12 @@ VARIANTS = {
     'table-join-model': 'select * from int1.t1 as t join mindsdb.pred as m where {W}',
     'model-join-table': 'select * from mindsdb.pred as m join int1.t1 as t where {W}',
     'on-columns-map': 'select * from int1.t1 as t join mindsdb.pred as m on t.a = m.k where {W}',
+    # ON clauses between table and model that are more than one equality: only top-level equalities are column mappings
+    'on-columns-map-inequality': 'select * from int1.t1 as t join mindsdb.pred as m on t.a > m.k where {W}',
+    'on-columns-map-negated': 'select * from int1.t1 as t join mindsdb.pred as m on not (t.a = m.k) where {W}',
+    'on-columns-map-and-inequality': 'select * from int1.t1 as t join mindsdb.pred as m on t.a = m.k and t.b > m.j where {W}',
+    'on-columns-map-two-equalities': 'select * from int1.t1 as t join mindsdb.pred as m on m.k = t.a and t.b = m.j where {W}',
+    'on-columns-map-disjunction': 'select * from int1.t1 as t join mindsdb.pred as m on t.a = m.k or t.b = m.j where {W}',
     'using': 'select * from int1.t1 as t join mindsdb.pred as m where {W} using Opt1 = 1, m.opt2 = \'x\', M.Opt3 = 2',
     # option names that contain dots themselves, addressed to the model by its alias (the alias is the FIRST part only)
     'using-dotted-keys': 'select * from int1.t1 as t join mindsdb.pred as m where {W} using Opt1 = 1, m.opt2 = \'x\', M.Opt3 = 2, '
@@ -392,6 +398,14 @@ def run(ctx):
             if got != want:
                 ctx.violation('using-options:%s' % v, 'USING options do not reach the model unchanged (apart from key case)',
                               {'sql': r['sql'], 'params': r.get('params')}, pin=(key, repr(got)))
+        if v.startswith('on-columns-map-'):
+            cm = {k_.lower(): v_.lower() for k_, v_ in (r.get('columns_map') or {}).items()}
+            want_cm = {'on-columns-map-inequality': {}, 'on-columns-map-negated': {}, 'on-columns-map-and-inequality': {'k': 't.a'},
+                       'on-columns-map-two-equalities': {'k': 't.a', 'j': 't.b'}, 'on-columns-map-disjunction': {}}[v]
+            if cm != want_cm:
+                ctx.violation('columns-map:%s' % v, 'the column mapping is not exactly the top-level equalities between a model column and a '
+                              'table column of the ON clause', {'sql': r['sql'], 'columns_map': r.get('columns_map'), 'expected': want_cm},
+                              pin=(key, repr(cm)))
         if v == 'on-columns-map':
             cm = {k_.lower(): v_.lower() for k_, v_ in (r.get('columns_map') or {}).items()}
             if cm != {'k': 't.a'} and cm != {'k': 't1.a'} and cm != {'k': 'a'}:
